@@ -371,3 +371,54 @@ func TestVerifC11_StoreGetter(t *testing.T) {
 		c11CheckBlock(t, svc, blk, height, rand.New(rand.NewPCG(blk.Seed, 0xC11C4EC)), 8)
 	})
 }
+
+// c11FlakyGetter answers the first `fail` namespace-data requests with "data not found" (what the
+// shrex getter reports when peers do not have the block yet, or store.Getter before the block is
+// stored) and serves the block afterwards.
+type c11FlakyGetter struct {
+	c11MemGetter
+	fail int
+}
+
+func (g *c11FlakyGetter) GetNamespaceData(ctx context.Context, h *header.ExtendedHeader, ns libshare.Namespace) (shwap.NamespaceData, error) {
+	if g.fail > 0 {
+		g.fail--
+		return nil, fmt.Errorf("shrex: peers do not have the block: %w", shwap.ErrNotFound)
+	}
+	return g.c11MemGetter.GetNamespaceData(ctx, h, ns)
+}
+
+// TestVerifC11_DataUnavailable: while the block's data cannot be retrieved, listing a namespace
+// that HAS blobs in the block must not answer "no blobs" (an empty list with a nil error is
+// exactly what an absent namespace gives); once the data is retrievable the full list comes back.
+func TestVerifC11_DataUnavailable(t *testing.T) {
+	defer vk.Flush()
+	rapid.Check(t, func(t *rapid.T) {
+		blk := c11GenBlock(t, "blk", c11DefaultOpts())
+		height := uint64(rapid.IntRange(1, 1<<20).Draw(t, "height"))
+		blocks := map[uint64]*c11Block{height: blk}
+		present := blk.NamespacesPresent()
+		if len(present) == 0 {
+			c11Record(blk, "unavailable:no-blobs")
+			return
+		}
+		ns := present[rapid.IntRange(0, len(present)-1).Draw(t, "ns")]
+		want := blk.RefNamespace(ns)
+		fails := rapid.IntRange(1, 3).Draw(t, "fails")
+		g := &c11FlakyGetter{c11MemGetter: c11MemGetter{blocks: blocks}, fail: fails}
+		svc := NewService(nil, g, c11HeaderGetter(blocks), c11NoSub)
+		ctx := context.Background()
+		for i := 0; i < fails; i++ {
+			got, err := svc.GetAll(ctx, height, []libshare.Namespace{ns})
+			if err == nil && len(got) != len(want) {
+				t.Fatalf("C11: GetAll(%s) while the block's data is not retrievable (attempt %d of %d failing): expected an error, observed %d blobs and a nil error although the block holds %d blobs of that namespace\nblock: %s",
+					vk.NsShort(ns), i+1, fails, len(got), len(want), blk.Desc())
+			}
+		}
+		got, err := svc.GetAll(ctx, height, []libshare.Namespace{ns})
+		if e := c11CheckList(blk, "GetAll("+vk.NsShort(ns)+") after the data became retrievable", got, err, want); e != nil {
+			t.Fatalf("%v\nblock: %s", e, blk.Desc())
+		}
+		c11Record(blk, "unavailable-then-served")
+	})
+}
